@@ -317,6 +317,9 @@ func domUpd(r *gen.Rng, n int, thorough bool, o *Out) {
 				if cr.Chance(30) {
 					cfg = dropSome(cr, cfg)
 				}
+				if !vopts.Plain && cr.Chance(25) {
+					cfg = swapEntryForNull(cr, cfg)
+				}
 				res := stepApply(o, c, up, ig, st, tr, mgr, ver, force, cfg, vopts.Plain, noop)
 				if strings.HasPrefix(res, "ok") {
 					emitSync(o, st)
@@ -387,6 +390,38 @@ func dropSome(r *gen.Rng, v interface{}) interface{} {
 		return out
 	}
 	return v
+}
+
+// swapEntryForNull: somewhere in the configuration one map entry is dropped and another key is given an
+// explicit null, so that the map keeps its size (degenerate configurations only).
+func swapEntryForNull(r *gen.Rng, v interface{}) interface{} {
+	m, ok := v.(map[string]interface{})
+	if !ok || len(m) == 0 {
+		return v
+	}
+	keys := make([]string, 0, len(m))
+	for k := range m {
+		keys = append(keys, k)
+	}
+	sort.Strings(keys)
+	out := map[string]interface{}{}
+	for k, x := range m {
+		out[k] = x
+	}
+	k := gen.Pick(r, keys)
+	if sub, isMap := m[k].(map[string]interface{}); isMap && len(sub) > 0 && r.Chance(70) {
+		out[k] = swapEntryForNull(r, sub)
+		return out
+	}
+	// same level: drop k, add a sibling key with null (declared names of the generated schemas and free keys)
+	delete(out, k)
+	for _, cand := range []string{"a", "b", "c", "d", "e", "x", "y", "value", "known", "v", "next"} {
+		if _, has := m[cand]; !has {
+			out[cand] = nil
+			break
+		}
+	}
+	return out
 }
 
 func genUpdateObject(r *gen.Rng, c *typCtx, st *updState, rootRef sgen.Ref, tr schema.TypeRef, pool []interface{}) interface{} {
@@ -914,7 +949,17 @@ func judgeApply(o *Out, op string, c *typCtx, ig ignoreCfg, up *merge.Updater, s
 	}
 	// C07: exact no-op signal, re-apply is a fixed point
 	if !noopMode {
-		eq := value.Equals(st.live.AsValue(), result.AsValue())
+		// independent equality: canonical encodings (numerically equal ints/floats coincide)
+		eq := vx.CanonValue(st.live.AsValue()) == vx.CanonValue(result.AsValue())
+		if wasNoop {
+			// nothing was returned: obtain the resulting object from the same request with ReturnInputOnNoop
+			exposing := ig.updaterWith(true, st.conv)
+			if o2, _, err2 := exposing.Apply(st.live, cfg, ver, pre, mgr, false); err2 == nil && o2 != nil {
+				eq = vx.CanonValue(st.live.AsValue()) == vx.CanonValue(o2.AsValue())
+			} else if o2, _, err2 := exposing.Apply(st.live, cfg, ver, pre, mgr, true); err2 == nil && o2 != nil {
+				eq = vx.CanonValue(st.live.AsValue()) == vx.CanonValue(o2.AsValue())
+			}
+		}
 		if wasNoop != eq {
 			o.Fail("C07", "noop-signal-exact", fmt.Sprintf("returned nil=%v, equal=%v", wasNoop, eq), "noop-signal-exact "+op, op)
 		}
